@@ -134,7 +134,9 @@ def c11_class(op, impl):
                 and not (core0[-1] == f["suffix"] or (not (f["flags"] & 0x20000) and bytes([core0[-1]]).lower() == bytes([f["suffix"]]).lower())):
             return "int-base-suffix-partial"
     core = bytes(c for c in consumed[sign_len:] if not (sep and c == sep))     # separators stepped over on the way
-    if k == "pi" and f["prefix"] and core[:1] == b"0" and len(core) == 2 and core[-1:].lower() == bytes([f["prefix"]]).lower():
+    if k == "pi" and f["prefix"] and core[:1] == b"0" and core[1:2].lower() == bytes([f["prefix"]]).lower() and \
+            (len(core) == 2 or (len(core) == 3 and f["suffix"] and not is_digit(core[2], f["radix"]))):
+        # "0x" + non-digit: Ok without a digit; with a base suffix the byte after it is stepped over as well (both recorded)
         return "int-base-prefix-without-digits"
     if k == "pf" and f["radix"] >= 19 and first is not None and chr(first).lower() in "ni":
         return "special-letters-are-digits"
